@@ -668,6 +668,34 @@ class SMHooks(NAHooks, OpHooks):
         r = OpHooks.on_call(self, interp, f, args, kwargs, node)
         if r is not NotImplemented:
             return r
+        if isinstance(f, ClassV) and f.ci.name == 'ProductSpace':
+            sp = list(args)
+            if len(sp) == 2 and isinstance(sp[1], int):
+                sp = [sp[0]] * sp[1]
+            if kwargs.get('weighting') is not None or kwargs.get(
+                    'exponent') is not None:
+                raise Undecided('ProductSpace with explicit weighting')
+            if not all(isinstance(x, (NSpace, NPSpace)) for x in sp):
+                raise PyRaise('TypeError')
+            return NPSpace(sp)
+        if isinstance(f, ClassV) and f.ci.name == 'COOMatrix':
+            data, (row, col), shape = args[0], args[1], args[2]
+            from .symex import SArr
+
+            def tolist(v, ints=False):
+                if isinstance(v, NA):
+                    v = list(v.a.ravel())
+                elif isinstance(v, SArr):
+                    v = list(v.items)
+                else:
+                    v = list(interp.seq(v))
+                if ints:
+                    v = [int(to_rat(x).constant()) if is_scalar(x) else x
+                         for x in v]
+                return v
+            return Rec('COOMatrix', data=tolist(data),
+                       row=tolist(row, True), col=tolist(col, True),
+                       shape=tuple(shape))
         if isinstance(f, Func) and f.name in ('is_real_dtype',
                                               'is_real_floating_dtype'):
             return as_dt(args[0]).d.kind in 'biuf'
@@ -755,6 +783,9 @@ class SMInterp(NAMixin, Interp):
         return super(SMInterp, self).augassign(s, scope, func)
 
     def equal(self, l, r, node):
+        if isinstance(l, Inst) != isinstance(r, Inst):
+            # an operator / object compared with a number or None
+            return False
         if is_scalar(l) and is_scalar(r):
             a, b = PA.ired(to_rat(l)), PA.ired(to_rat(r))
             if 'I' in a.vars() or 'I' in b.vars():
